@@ -109,6 +109,8 @@ const caseWait = 5 * time.Second
 type client struct {
 	c   *rig.Client
 	rec *recConn
+	// auth: the Proxy-Authorization field line a well-behaved client of this proxy instance sends ("" = none)
+	auth string
 }
 
 func dialClient(addr string) (*client, error) {
@@ -130,7 +132,7 @@ func (cl *client) close() { cl.c.Close() }
 
 // enterMITM performs CONNECT + TLS with the intercepting proxy.
 func (cl *client) enterMITM(e *env, p *rig.Proxy, host string) error {
-	cl.c.Send([]byte("CONNECT "+host+" HTTP/1.1\r\nHost: "+host+"\r\n\r\n"), nil)
+	cl.c.Send([]byte("CONNECT "+host+" HTTP/1.1\r\nHost: "+host+"\r\n"+cl.auth+"\r\n"), nil)
 	res, err := cl.c.ReadResponse("CONNECT", caseWait)
 	if err != nil || res.Status != 200 {
 		return fmt.Errorf("CONNECT for interception not answered with 200: %v %v", err, res)
@@ -439,6 +441,9 @@ func (e *env) runClient(c *Case) *Obs {
 		return o
 	}
 	defer cl.close()
+	if c.Auth != "" {
+		cl.auth = authLine
+	}
 	switch c.Via {
 	case "tls":
 		if !c.Raw {
@@ -450,7 +455,7 @@ func (e *env) runClient(c *Case) *Obs {
 	case "mitm":
 		host := "hostile.tls.test:" + portTLSOrigin
 		if c.Raw {
-			cl.c.Send([]byte("CONNECT "+host+" HTTP/1.1\r\nHost: "+host+"\r\n\r\n"), nil)
+			cl.c.Send([]byte("CONNECT "+host+" HTTP/1.1\r\nHost: "+host+"\r\n"+cl.auth+"\r\n"), nil)
 			res, err := cl.c.ReadResponse("CONNECT", caseWait)
 			if err != nil || res.Status != 200 {
 				o.Setup = fmt.Sprintf("CONNECT for interception not answered with 200: %v", err)
@@ -472,7 +477,7 @@ func (e *env) runClient(c *Case) *Obs {
 		parts = append(parts, []byte("GET http://"+probeHost+"/big HTTP/1.1\r\nHost: "+probeHost+"\r\nX-Big: "+strings.Repeat("b", c.BigInput)+"\r\n\r\n"))
 	}
 	if c.Sentinel {
-		parts = append(parts, []byte("GET http://"+probeHost+"/sentinel HTTP/1.1\r\nHost: "+probeHost+"\r\nCase-Id: sentinel-"+c.ID+"\r\nConnection: close\r\n\r\n"))
+		parts = append(parts, []byte("GET http://"+probeHost+"/sentinel HTTP/1.1\r\nHost: "+probeHost+"\r\nCase-Id: sentinel-"+c.ID+"\r\n"+cl.auth+"Connection: close\r\n\r\n"))
 	}
 	// write in the background: the proxy may stop reading (and close) in the middle of a big input
 	wdone := make(chan struct{})
@@ -606,9 +611,12 @@ func (e *env) probeOne(name string, p *rig.Proxy) string {
 		return "dial: " + err.Error()
 	}
 	defer cl.close()
-	req := "GET http://" + probeHost + "/probe HTTP/1.1\r\nHost: " + probeHost + "\r\nCase-Id: probe-" + name + "\r\n\r\n"
+	if authProxies[name] {
+		cl.auth = authLine
+	}
+	req := "GET http://" + probeHost + "/probe HTTP/1.1\r\nHost: " + probeHost + "\r\nCase-Id: probe-" + name + "\r\n" + cl.auth + "\r\n"
 	switch {
-	case name == "tls" || name == "htls":
+	case name == "tls" || name == "htls" || name == "authtls":
 		if err := cl.enterTLSListener(); err != nil {
 			return "tls: " + err.Error()
 		}
@@ -616,7 +624,7 @@ func (e *env) probeOne(name string, p *rig.Proxy) string {
 		if err := cl.enterMITM(e, p, "probe.tls.test:"+portTLSOrigin); err != nil {
 			return "mitm: " + err.Error()
 		}
-		req = "GET /probe HTTP/1.1\r\nHost: probe.tls.test:" + portTLSOrigin + "\r\nCase-Id: probe-" + name + "\r\n\r\n"
+		req = "GET /probe HTTP/1.1\r\nHost: probe.tls.test:" + portTLSOrigin + "\r\nCase-Id: probe-" + name + "\r\n" + cl.auth + "\r\n"
 	}
 	cl.c.Send([]byte(req), nil)
 	res, err := cl.c.ReadResponse("GET", caseWait)
